@@ -22,6 +22,8 @@ pub use kvs::VerifState;
 pub use tree::{VerifCompaction, VersionRef, verif_set_point_hook};
 #[cfg(blue_verif)]
 pub use tree::{VerifParked, verif_select};
+#[cfg(blue_verif)]
+pub use tree::VerifPending;
 pub use tree::{CompactionID, LsmTree, NUM_LEVELS};
 pub use verifier::{LsmVerifier, ManifestVerifier};
 
